@@ -338,6 +338,10 @@ def chain_elements():
         ("filter", lambda inner: (N(2), ("filter", inner))),
         ("function", lambda inner: (("fndef", "f", (), inner), ("fncall", "f"))),
         ("list", lambda inner: (("list", (inner,)),)),
+        ("while-cond", lambda inner: (N(1), E("£"), ("while", inner + (E("¥"),), (N(0), E("£"))))),  # inner sits in the condition (runs twice)
+        ("lambda0", lambda inner: (("lam", 0, inner), E("†"))),
+        ("lambda2", lambda inner: (N(4), N(5), ("lam", 2, inner), E("†"))),
+        ("function-args", lambda inner: (N(4), N(5), ("fndef", "f", (1, "b"), inner), ("fncall", "f"))),
     ]
 
 
